@@ -1,0 +1,20 @@
+//go:build verif
+
+// Contracts for govc (contract-based deductive verification); comment-only, compiled only with -tags verif.
+package optimistichash
+
+// ---- the optimistic commitment to the imported bridge exits (C19): keccak over, per claim and in order, the 32-byte
+// little-endian form of the claim's global index (the same helper and the same byte order as the FEP commitment of
+// the certificate, here over the claim's full stored value) followed by the 32-byte hash of the exit rebuilt from the
+// claim. optPieces is the ghost sequence of those byte strings (two per claim).
+//@ ghost var optPieces map[int]Bytes
+//@ func (o *optimisticCommitImportedBrigesData) hash
+//@   props C19
+//@   requires o != nil && forall(k, 0, len(o.bridges), o.bridges[k].globalIndex != nil)
+//@   modifies optPieces
+//@   choose optPieces with forall(k, 0, len(o.bridges), optPieces[2*k] == leB(absInt(bigval(o.bridges[k].globalIndex))) && optPieces[2*k+1] == bytesOf(hb(o.bridges[k].bridgeExitHash), 32))
+//@   ensures[pieces-are-index-then-exit-hash-per-claim] forall(k, 0, len(o.bridges), optPieces[2*k] == leB(absInt(bigval(o.bridges[k].globalIndex))) && optPieces[2*k+1] == bytesOf(hb(o.bridges[k].bridgeExitHash), 32))
+//@   ensures[commitment] result == keccak(catB(emptyB(), chainB(optPieces, 2 * len(o.bridges))))
+//@   loop 0 invariant forall(k, 0, len(o.bridges), o.bridges[k].globalIndex != nil)
+//@   loop 0 invariant 0 <= rangeindex + 1 && rangeindex + 1 <= len(o.bridges) && off(combined) == 0 && len(combined) == 64 * (rangeindex + 1)
+//@   loop 0 invariant forall(A, []Bytes, forall(k, 0, len(o.bridges), A[2*k] == leB(absInt(bigval(o.bridges[k].globalIndex))) && A[2*k+1] == bytesOf(hb(o.bridges[k].bridgeExitHash), 32)) ==> bytesOf(seq(combined), len(combined)) == chainB(A, 2 * (rangeindex + 1)))
